@@ -120,9 +120,13 @@ Definition c05_attach_race_spec (case i : sx) : bool :=
   let full := stress_events i in
   let at_ret := flat_map (fun e => opt_list (dec_ev e)) (sx_list (sx_nth i 1)) in
   let before := sx_nat (sx_arg case 1) in
+  (* a racing appender bumps the overflow counter after its force_push displaced an entry: when the drop returns,
+     each of them (and the held one) may have one displacement not yet in the log — the full log has them all *)
+  let missing := filter (fun e => negb (mem_ent e (nexts at_ret))) (thread_seq 1 before) in
   closed_properly at_ret && nothing_after_drop full &&
   Nat.eqb (length (nexts full)) (length (nexts at_ret)) &&
-  all_accounted (thread_seq 1 before) at_ret full &&
+  Nat.leb (length missing) (count_over at_ret + sx_nat (sx_arg case 2) + 1) &&
+  Nat.leb (length missing) (count_over full) &&
   nodup_ent (nexts full).
 
 Definition c05_holds (x : sx) : sx :=
